@@ -48,6 +48,34 @@ FNAME = st.text(alphabet="abcdefghijklmnopqrstuvwxyzABCDEFGHIJKLMNOPQRSTUVWXYZ01
 
 
 def value_strategy(name):
+    """legal values for an option; one draw in six is a 'special' value: the documented default given explicitly, an exact
+    zero, or an end of the documented range (explicit-but-default and exact-zero values are where 'was it given?' logic
+    and 'is it switched off?' logic part ways)"""
+    base = _value_strategy(name)
+    t = OPTS[name][0] if name in OPTS else IGNORED[name]
+    if t not in ("f4", "f8", "u4", "i4", "i8") or name in IGNORED or name not in RANGE:
+        return base
+    from vlib import cfggen
+    lo, hi = RANGE[name]
+    special = []
+    if name in cfggen.DEFAULTS and not isinstance(cfggen.DEFAULTS[name], (list, bool)):
+        special.append(cfggen.DEFAULTS[name])
+    if lo <= 0 <= hi:
+        special.append(0)
+    special += [lo, hi]
+    if t in ("u4", "i4", "i8"):
+        special = [int(x) for x in special if float(x) == int(x)]
+    elif t == "f4":
+        special = [float(np.float32(x)) for x in special]
+    else:
+        special = [float(x) for x in special]
+    special = [x for x in special if lo <= x <= hi]
+    if not special:
+        return base
+    return st.integers(0, 5).flatmap(lambda k: st.sampled_from(special) if k == 0 else base)
+
+
+def _value_strategy(name):
     t = OPTS[name][0] if name in OPTS else IGNORED[name]
     if t == "b":
         return st.booleans()
